@@ -106,7 +106,7 @@ def gen_case(rng, tier):
     d = rng.randint(1, 4)
     if rng.random() < 0.12:  # real UBMs are large: two-digit (and more) component counts
         c = rng.choice([9, 10, 11, 12, 16, 21, 33, 101, 128])
-        d = rng.randint(1, 6)
+        d = rng.choice([1, 2, 3, 6, 9, 17, 40])
     scale = 10.0 ** rng.uniform(-1, 1)
     scale2 = scale * scale
     means = sig6(rs.randn(c, d) * 2 * scale)
